@@ -240,6 +240,15 @@ def _analyse(case, tier, props, target_keys, seed, res):
                 _unk(res, pr, f"{case.name}/{tdir}", f"encoder: {e}")
     if "C03" in props and len(jac_terms) > 1:
         _c03_agree(case, p, res, jac_terms)
+    if "C03" in props:
+        # the layouts of one network are generated from the same entries: a Jacobian that is valid C++ in one layout and
+        # not in another is a disagreement between the layouts (each unit's own validity is C02's subject)
+        okd = sorted(d for d, t_ in res["targets"].items() if t_.get("jac_compiled"))
+        bad = sorted(d for d, t_ in res["targets"].items() if t_.get("jac_compile_error"))
+        if okd and bad:
+            first = next((l for l in res["targets"][bad[0]]["jac_compile_error"].splitlines() if "error:" in l), "")
+            _viol(res, "C03", f"{case.name}:layouts:compile:{'+'.join(bad)}", f"the Jacobian of {case.name} is valid C++ for {okd} but not for {bad}: the layouts do not hold the same entries ({first.strip()[-160:]})",
+                  {"case": case.name, "compiles": okd, "rejected": bad, "stderr": res["targets"][bad[0]]["jac_compile_error"], "spec": _small_spec(case), "replay_note": "the real compiler (clang++-14) rejects the emitted source of one layout only"})
 
 
 def _analyse_target(case, tier, props, p, meta, tdir, res, tr, jac_terms, seed):
@@ -329,10 +338,12 @@ def _analyse_target(case, tier, props, p, meta, tdir, res, tr, jac_terms, seed):
     if "C02" in props or "C03" in props:
         jac = ode.run_jac(p, tdir)
         if jac.compile_errors:
+            tr["jac_compile_error"] = next(iter(jac.compile_errors.values()))[-600:]
             for pr in ("C02", "C03"):
                 if pr in props:
                     _viol_compile(res, pr, tag, jac.compile_errors, p, tdir, "modifier" in case.tags)
             return
+        tr["jac_compiled"] = True
         res["functions"].append(f"{tdir}:Jac")
         J, structural = _jac_entries(kind, jac, NEQ, NNZ)
         jac_terms[tdir] = J
@@ -1029,6 +1040,14 @@ def _c01_second_call(case, p, tdir, res, fex, q, NEQ, tag):
         return
     if f2.compile_errors or not getattr(f2, "first_ydot", None):
         return
+    # EvalRates writes a coefficient only inside its reaction's temperature window and relies on the caller's zeroed
+    # array: an array that is zeroed once per process (function-local static) carries the previous call's rates
+    stale = [n for n in f2.notes if "not zero-initialised" in n]
+    if stale:
+        _viol(res, "C01", f"{name}:rate-array", f"in its second evaluation the right-hand side hands EvalRates a rate array that still holds the first evaluation's coefficients ({stale[0]}): a reaction outside its temperature window contributes with a stale rate",
+              {"case": case.name, "target": tdir, "spec": _small_spec(case), "replay_note": "state of the rate array at the second call of the compiled right-hand side on one interpreter state"})
+        return
+    _ok(res, "C01")
     sub = list(zip(f2.y, f2.y2))
     for i in range(NEQ):
         a, b = f2.first_ydot[i], f2.ydot[i]
